@@ -27,6 +27,9 @@ func TestVerifModels(t *testing.T) {
 		if vmTrimSpace(s) != strings.TrimSpace(s) {
 			t.Fatalf("TrimSpace(%q)", s)
 		}
+		if vmTrim(s, " \t\r\n") != strings.Trim(s, " \t\r\n") || vmTrim(s, "a$") != strings.Trim(s, "a$") {
+			t.Fatalf("Trim(%q)", s)
+		}
 		if vmToLower(s) != strings.ToLower(s) {
 			t.Fatalf("ToLower(%q)", s)
 		}
